@@ -22,10 +22,11 @@ def hOpS (o : Obj) (op : Op) : Bool :=
   match o.backup with
   | some (some _) =>
       (match op with
-       | .exitOk _ | .exitExc _ => true
+       | .exitOk _ | .exitExc _ | .addAtom .. => true
        | _ => blockOpS o op)
   | _ =>
       (match op with
+       | .addAtom _ _ _ skip => !skip
        | .addBond _ _ _ order skip => order != 8 && !skip
        | .delBond _ a b skip => ((o.mol.bond? a b).map (·.order)) != some 8 && !skip
        | .fixStructure .. | .calcLabels _ | .fixStereo _ | .cleanStereo _ | .read .. | .flush .. | .setXY .. | .setMeta ..
@@ -140,6 +141,151 @@ theorem runFn_hout_bond {w : World} {i : Nat} {o : Obj} {skip : Bool} {m' : Mol}
       rw [lookup_filter_key _ (fun x => m'.ids.contains x) k (by simpa using hk), hfresh k hk',
         envOf_congr hfr.1 (hfr.2 k hne.1 hne.2)]
 
+theorem flatMap_congr' {α β} {l : List α} {f g : α → List β} (h : ∀ x ∈ l, f x = g x) : l.flatMap f = l.flatMap g := by
+  induction l with
+  | nil => rfl
+  | cons a rest ih =>
+    simp only [List.flatMap_cons]
+    rw [h a List.mem_cons_self, ih (fun x hx => h x (List.mem_cons_of_mem _ hx))]
+
+/-! ## add_atom -/
+
+theorem atom_hrel :
+    (expand current.fns expandFuel "MoleculeContainer.add_atom" []).filter (fun ge => hrel ge.e) =
+      [⟨[], .edit⟩, ⟨[], .changedAdd⟩, ⟨[.ifCalc], .hcalc⟩, ⟨[.ifCalc], .changedNone⟩] := by decide +kernel
+
+theorem gAddAtom_frame {m m' : Mol} {z : Nat} {n? : Option Nat} {k : Nat} (h : gAddAtom m z n? = .ok (m', k)) (hw : MolWF m) :
+    k ∉ m.ids ∧ m'.ids = m.ids ++ [k] ∧ (∀ n ∈ m.ids, ∀ bm, envRef bm m' n = envRef bm m n) ∧
+    (∀ n ∈ m.ids, envOf m' n = envOf m n) := by
+  unfold gAddAtom at h
+  simp only at h
+  split at h; · cases h
+  rename_i hna
+  cases h
+  have hnot : (n?.getD (listMax m.ids + 1)) ∉ m.ids := fun hmem => hna (hasAtom_iff.mpr hmem)
+  have hatom : ∀ j ∈ m.ids, Mol.atom? ⟨m.atoms ++ [(n?.getD (listMax m.ids + 1), { z := z })], m.adj ++ [(n?.getD (listMax m.ids + 1), [])]⟩ j
+      = m.atom? j := by
+    intro j hj
+    simp only [Mol.atom?, List.lookup_append]
+    cases hl : m.atoms.lookup j with
+    | none => exact absurd hj (lookup_none_iff.mp hl)
+    | some a => simp
+  have hnbrs : ∀ n ∈ m.ids, Mol.nbrs ⟨m.atoms ++ [(n?.getD (listMax m.ids + 1), { z := z })], m.adj ++ [(n?.getD (listMax m.ids + 1), [])]⟩ n
+      = m.nbrs n := by
+    intro n hn
+    simp only [Mol.nbrs, List.lookup_append]
+    have hne : (n == n?.getD (listMax m.ids + 1)) = false := by
+      apply beq_false_of_ne; rintro rfl; exact hnot hn
+    cases hl : m.adj.lookup n with
+    | none => simp [List.lookup_cons, hne]
+    | some l => simp
+  have hpart : ∀ n ∈ m.ids, nbrPart ⟨m.atoms ++ [(n?.getD (listMax m.ids + 1), { z := z })], m.adj ++ [(n?.getD (listMax m.ids + 1), [])]⟩ n
+      = nbrPart m n := by
+    intro n hn
+    simp only [nbrPart, hnbrs n hn]
+    apply flatMap_congr'
+    intro kb hkb
+    have hkb' := (List.mem_filter.mp hkb).1
+    have hj : kb.1 ∈ m.ids := by
+      have hrow : (n, m.nbrs n) ∈ m.adj := by
+        have : n ∈ m.adj.map (·.1) := by rw [hw.keys]; exact hn
+        cases hl : m.adj.lookup n with
+        | none => exact absurd this (lookup_none_iff.mp hl)
+        | some l =>
+          have := mem_of_lookup hl
+          simp only [Mol.nbrs, hl, Option.getD_some]; exact this
+      exact hw.nbr_mem hrow (show (kb.1, kb.2) ∈ m.nbrs n from hkb')
+    rw [hatom kb.1 hj]
+  refine ⟨hnot, by simp [Mol.ids], ?_, ?_⟩
+  · intro n hn bm
+    simp only [envRef, hatom n hn, hpart n hn]
+  · intro n hn
+    simp only [envOf_eq, hatom n hn, hpart n hn]
+
+theorem runFn_txh_addAtom {w : World} {i : Nat} {o : Obj} {bk : Core} {skip : Bool} {m' : Mol} {k : Nat} {obs : List String}
+    (hget : w.objs[i]? = some o) (h : TxH o bk)
+    (hfr : k ∉ o.mol.ids ∧ m'.ids = o.mol.ids ++ [k] ∧ (∀ n ∈ o.mol.ids, ∀ bm, envRef bm m' n = envRef bm o.mol n) ∧
+      (∀ n ∈ o.mol.ids, envOf m' n = envOf o.mol n))
+    (herr : (runFn current w i o { skip := skip, touched := [k], editMol := some m', obs := obs } "MoleculeContainer.add_atom" []).err = none) :
+    ∃ o', (runFn current w i o { skip := skip, touched := [k], editMol := some m', obs := obs } "MoleculeContainer.add_atom" []).w.objs[i]? =
+      some o' ∧ TxH o' bk := by
+  obtain ⟨c, hi⟩ := runFn_ok herr
+  have hp := interp_proj _ _ _ hi
+  have hb := interp_backup (T := current) (cx := { skip := skip, touched := [k], editMol := some m', obs := obs })
+    _ { o := o, vecs := w.vecs } (show noBkWrites (expand current.fns expandFuel "MoleculeContainer.add_atom" []) = true by decide +kernel)
+  rw [hi] at hb
+  have hb' : c.o.backup = o.backup := hb
+  rw [runFn_world, hi]
+  refine ⟨c.o, getElem?_setObj_self _ hget, ?_⟩
+  have hbk : bkH o.backup = some (some (bk.mol, bk.hs)) := by rw [h.hbk]; rfl
+  obtain ⟨l?, hch⟩ : ∃ l?, o.changed = some l? := by
+    cases hc : o.changed with
+    | none => exact absurd hc h.chg
+    | some l? => exact ⟨l?, rfl⟩
+  have hfinal : c.o.mol = m' ∧ c.o.hs = o.hs.filter (fun p => m'.ids.contains p.1) ∧
+      c.o.changed = some (some (unionNat (l?.getD []) [k])) := by
+    rw [interpH_filter, atom_hrel] at hp
+    simp only [interpH, guardsH, proj, hbk, stepH, editHs, hch, if_false, Bool.false_eq_true, Bool.and_false,
+      List.isEmpty_cons, HS.mk.injEq] at hp
+    cases l? <;> cases skip <;> simp only [if_true, if_false, Bool.false_eq_true, HS.mk.injEq, Option.getD] at hp ⊢ <;>
+      exact ⟨hp.1, hp.2.1, hp.2.2.1⟩
+  obtain ⟨hm, hh, hc⟩ := hfinal
+  have hpend : ∀ n, n ∈ pend c.o ↔ (n ∈ pend o ∨ n = k) := by
+    intro n
+    simp only [pend, hc, hch, mem_unionNat, List.mem_cons, List.not_mem_nil, or_false]
+    cases l? <;> simp
+  refine ⟨by rw [hb']; exact h.hbk, by rw [hc]; simp, ?_, ?_⟩
+  · intro n hn hnp
+    rw [hm] at hn ⊢
+    rw [hpend] at hnp
+    simp only [not_or] at hnp
+    have hn' : n ∈ o.mol.ids := by
+      rw [hfr.2.1] at hn
+      rcases List.mem_append.mp hn with h1 | h1
+      · exact h1
+      · simp only [List.mem_singleton] at h1; exact absurd h1 hnp.2
+    rw [hh, lookup_filter_key _ (fun x => m'.ids.contains x) n (by simpa using hn), h.ref n hn' hnp.1, hfr.2.2.1 n hn' bk.mol]
+  · intro n hn hnone
+    rw [hm, hfr.2.1] at hn
+    rw [hpend]
+    rcases List.mem_append.mp hn with h1 | h1
+    · exact Or.inl (h.new n h1 hnone)
+    · simp only [List.mem_singleton] at h1; exact Or.inr h1
+
+theorem runFn_hout_addAtom {w : World} {i : Nat} {o : Obj} {m' : Mol} {k : Nat} {obs : List String}
+    (hget : w.objs[i]? = some o) (ho : HObj o) (hout : o.backup = some none)
+    (hfr : k ∉ o.mol.ids ∧ m'.ids = o.mol.ids ++ [k] ∧ (∀ n ∈ o.mol.ids, ∀ bm, envRef bm m' n = envRef bm o.mol n) ∧
+      (∀ n ∈ o.mol.ids, envOf m' n = envOf o.mol n))
+    (herr : (runFn current w i o { skip := false, touched := [k], editMol := some m', obs := obs } "MoleculeContainer.add_atom" []).err = none) :
+    ∃ o', (runFn current w i o { skip := false, touched := [k], editMol := some m', obs := obs } "MoleculeContainer.add_atom" []).w.objs[i]? =
+      some o' ∧ HObj o' := by
+  obtain ⟨hch, hfresh⟩ := ho.out hout
+  refine runFn_hout hget hout (by decide +kernel) ?_ herr
+  intro c hp
+  have hbk : bkH o.backup = some none := by rw [hout]; rfl
+  rw [atom_hrel] at hp
+  simp only [interpH, guardsH, proj, hbk, stepH, editHs, hch, if_false, Bool.false_eq_true, Bool.and_false,
+    List.isEmpty_cons, HS.mk.injEq, unionNat, List.foldl_cons, List.foldl_nil, List.contains_nil, List.nil_append,
+    hcalcHs, hcalcTargets] at hp
+  obtain ⟨hm, hh, hc, _⟩ := hp
+  refine ⟨hc, ?_⟩
+  intro n hn
+  rw [hm] at hn ⊢
+  rw [hh, lookup_foldl_setHs]
+  by_cases hin : n ∈ [k].filter m'.hasAtom
+  · simp [hin]
+  · simp only [hin, if_false]
+    have hnk : n ≠ k := by
+      intro he; apply hin; subst he
+      exact List.mem_filter.mpr ⟨by simp, hasAtom_iff.mpr hn⟩
+    have hn' : n ∈ o.mol.ids := by
+      rw [hfr.2.1] at hn
+      rcases List.mem_append.mp hn with h1 | h1
+      · exact h1
+      · simp only [List.mem_singleton] at h1; exact absurd h1 hnk
+    rw [lookup_filter_key _ (fun x => m'.ids.contains x) n (by simpa using hn), hfresh n hn', hfr.2.2.2 n hn']
+
+
 theorem runFn_hobj_neutral {w : World} {i : Nat} {o : Obj} {cx : Ctx} {f : String} {env : List (String × Bool)}
     (hget : w.objs[i]? = some o) (hrel0 : (expand current.fns expandFuel f env).filter (fun ge => hrel ge.e) = [])
     (hno : noBkWrites (expand current.fns expandFuel f env) = true) (h : HObj o)
@@ -157,7 +303,7 @@ theorem runFn_hobj_neutral {w : World} {i : Nat} {o : Obj} {cx : Ctx} {f : Strin
 /-- **one step**: the hydrogen invariant of object `i` survives every covered operation on it and every operation on
 other objects -/
 theorem step_hobj (hT : TablesOK current = true) {w : World} {i : Nat} {o : Obj} {op : Op} {obs : List String}
-    (hget : w.objs[i]? = some o) (h : HObj o) (hop : op.target = i → hOpS o op = true)
+    (hget : w.objs[i]? = some o) (h : HObj o) (hwf : MolWF o.mol) (hop : op.target = i → hOpS o op = true)
     (herr : (step current w op obs).err = none) :
     ∃ o', (step current w op obs).w.objs[i]? = some o' ∧ HObj o' := by
   have hlt : i < w.objs.length := by
@@ -249,7 +395,16 @@ theorem step_hobj (hT : TablesOK current = true) {w : World} {i : Nat} {o : Obj}
         · refine ⟨o, ?_, h⟩
           simp only
           rw [getElem?_append_lt _ _ _ hlt]; exact hget
-      | addAtom _ _ _ _ => simp at hb
+      | addAtom oi z n skip =>
+        have hsk : skip = false := by simpa using hb
+        subst hsk
+        simp only at herr ⊢
+        cases hg : gAddAtom o.mol z n with
+        | error e => simp [hg] at herr
+        | ok r =>
+          obtain ⟨m', k⟩ := r
+          simp only [hg] at herr ⊢
+          exact runFn_hout_addAtom hget h hout (gAddAtom_frame hg hwf) herr
       | delAtom _ _ _ => simp at hb
       | remap _ _ => simp at hb
       | substructure _ _ _ => simp at hb
@@ -261,6 +416,24 @@ theorem step_hobj (hT : TablesOK current = true) {w : World} {i : Nat} {o : Obj}
     · -- inside a transaction
       obtain ⟨htx, hbkf⟩ := h.txn bk hbk
       simp only [hOpS, hbk] at hb
+      by_cases hadd : ∃ oi z n skip, op = .addAtom oi z n skip
+      · obtain ⟨oi, z, n, skip, rfl⟩ := hadd
+        have hi' : i = oi := hti
+        subst hi'
+        unfold step at herr ⊢
+        simp only [Op.target, hget] at herr ⊢
+        cases hg : gAddAtom o.mol z n with
+        | error e => simp [hg] at herr
+        | ok r =>
+          obtain ⟨m', k⟩ := r
+          simp only [hg] at herr ⊢
+          obtain ⟨o', hg', ht'⟩ := runFn_txh_addAtom hget htx (gAddAtom_frame hg hwf) herr
+          refine ⟨o', hg', ⟨fun hn => ?_, fun b hb'' => ?_, Or.inr ⟨bk, ht'.hbk⟩⟩⟩
+          · rw [ht'.hbk] at hn; cases hn
+          · rw [ht'.hbk] at hb''
+            simp only [Option.some.injEq] at hb''
+            subst hb''
+            exact ⟨ht', hbkf⟩
       by_cases hex : (∃ oi, op = .exitOk oi) ∨ (∃ oi, op = .exitExc oi)
       · rcases hex with ⟨oi, rfl⟩ | ⟨oi, rfl⟩
         · have hi' : i = oi := hti
@@ -275,7 +448,8 @@ theorem step_hobj (hT : TablesOK current = true) {w : World} {i : Nat} {o : Obj}
           have h2 : o'.hs = bk.hs := by rw [show o'.hs = o'.toCore.hs from rfl, hcore]
           rw [h1, h2]; exact hbkf
       · have hb2 : blockOpS o op = true := by
-          cases op <;> first | exact hb | (exfalso; exact hex (Or.inl ⟨_, rfl⟩)) | (exfalso; exact hex (Or.inr ⟨_, rfl⟩))
+          cases op <;> first | exact hb | (exfalso; exact hex (Or.inl ⟨_, rfl⟩)) | (exfalso; exact hex (Or.inr ⟨_, rfl⟩)) |
+            (exfalso; exact hadd ⟨_, _, _, _, rfl⟩)
         obtain ⟨o', hg', ht'⟩ := step_txh hget htx (fun _ => hb2) herr
         refine ⟨o', hg', ⟨fun hn => ?_, fun b hb'' => ?_, Or.inr ⟨bk, ht'.hbk⟩⟩⟩
         · rw [ht'.hbk] at hn; cases hn
